@@ -92,30 +92,39 @@ func runC08(c *Ctx) {
 
 func c08Run(c *Ctx, capSec int) {
 	cfgName := fmt.Sprintf("cap%d", capSec)
-	b, err := NewBed(c, cfgName, BedOpts{Upstreams: []string{"pipe"}, MemSize: 64 << 20, MaxTTL: capSec, Listeners: []string{"tcp", "gnet", "udp", "http"}})
+	// "pipe" (pipelined) carries every well-behaved key; keys whose upstream reply is garbage, a closed
+	// connection or silence use "tcp" (one query per connection), so that a connection killed on purpose
+	// cannot fail - and make the transport retry - the fetches of other keys
+	b, err := NewBed(c, cfgName, BedOpts{Upstreams: []string{"pipe", "tcp"}, MemSize: 64 << 20, MaxTTL: capSec, Listeners: []string{"tcp", "gnet", "udp", "http"}})
 	if err != nil {
 		c.startFailure(err, cfgName)
 		return
 	}
 	// displacement scenario: after the first fetch of a "flip" key the upstream answers with an error
 	var flipMu sync.Mutex
-	flipSeen := map[string]int{}
+	flipFirst := map[string]int64{} // key -> arrival of its first fetch
 	b.Up["pipe"].SetHook(func(q *fakeup.QueryLog, d *fakeup.Directives) {
 		if !strings.Contains(q.Name, "flip") {
 			return
 		}
+		k := chKey(q.Name, q.Qtype, q.Qclass)
 		flipMu.Lock()
-		flipSeen[chKey(q.Name, q.Qtype, q.Qclass)]++
-		n := flipSeen[chKey(q.Name, q.Qtype, q.Qclass)]
+		t0, seen := flipFirst[k]
+		if !seen {
+			flipFirst[k] = q.TRecv
+			t0 = q.TRecv
+		}
 		flipMu.Unlock()
-		if n > 1 {
-			if strings.Contains(q.Name, "flipnx") {
+		// every fetch within 3 s of the first one (a retry of the transport) still gets the positive answer
+		if q.TRecv-t0 > int64(3*time.Second) {
+			switch {
+			case strings.Contains(q.Name, "flipnx"):
 				d.Kind = "nx"
-			} else if strings.Contains(q.Name, "fliprf") {
+			case strings.Contains(q.Name, "fliprf"):
 				d.Kind, d.RCode = "rc", 5
-			} else if strings.Contains(q.Name, "fliprc9") {
+			case strings.Contains(q.Name, "fliprc9"):
 				d.Kind, d.RCode = "rc", 9
-			} else {
+			default:
 				d.Kind, d.RCode = "rc", 2
 			}
 		}
@@ -161,8 +170,24 @@ func c08Run(c *Ctx, capSec int) {
 	defer lag.Stop()
 	var wg sync.WaitGroup
 	listeners := []string{"tcp", "gnet", "udp", "http"}
+	// keep the pooled pipelined connections busy: an idle one is closed by its read deadline even with a
+	// query in flight, and the transport's retry would be a second fetch
+	stopKA := make(chan struct{})
+	go func() {
+		for i := 0; ; i++ {
+			select {
+			case <-stopKA:
+				return
+			case <-time.After(1200 * time.Millisecond):
+			}
+			for k := 0; k < 4; k++ {
+				go b.Exchange("udp", mkQuery(uint16(i), fmt.Sprintf("ok-keepalive%dx%d.pipe.test.", i, k), dns.TypeA, dns.ClassINET, false), xOpts{Timeout: 3 * time.Second})
+			}
+		}
+	}()
 	type runKey struct {
 		c08Key
+		up    string
 		name  string
 		qt    uint16
 		first *chResp
@@ -170,7 +195,11 @@ func c08Run(c *Ctx, capSec int) {
 	var rks []*runKey
 	for ci := 0; ci < copies; ci++ {
 		for ki, k := range keys {
-			rk := &runKey{c08Key: k, name: fmt.Sprintf("%s-c%dk%dx%d.pipe.test.", k.First, ci, ki, c.Seed), qt: []uint16{dns.TypeA, dns.TypeTXT, dns.TypeMX}[(ci+ki)%3]}
+			up := "pipe"
+			if k.Kind == "garbage" || k.Kind == "close" || k.Kind == "silent" {
+				up = "tcp"
+			}
+			rk := &runKey{c08Key: k, up: up, name: fmt.Sprintf("%s-c%dk%dx%d.%s.test.", k.First, ci, ki, c.Seed, up), qt: []uint16{dns.TypeA, dns.TypeTXT, dns.TypeMX}[(ci+ki)%3]}
 			rks = append(rks, rk)
 			wg.Add(1)
 			go func(rk *runKey, li int) {
@@ -193,7 +222,11 @@ func c08Run(c *Ctx, capSec int) {
 		}
 	}
 	wg.Wait()
+	close(stopKA)
 	fetches := fetchesOf(b, "pipe")
+	for k, v := range fetchesOf(b, "tcp") {
+		fetches[k] = v
+	}
 	alive := b.Proxy.Alive()
 	res := b.Stop()
 	if !alive {
@@ -231,14 +264,14 @@ func c08Run(c *Ctx, capSec int) {
 		var fis []*finfo
 		for _, f := range fs {
 			fi := &finfo{f: f}
-			exp := fakeup.BuildReply(strings.ToLower(rk.name), rk.qt, dns.ClassINET, "pipe", f.Serial, dirs)
+			exp := fakeup.BuildReply(strings.ToLower(rk.name), rk.qt, dns.ClassINET, rk.up, f.Serial, dirs)
 			if f.Kind == "rc" && dirs.Kind != "rc" { // flipped by the hook
 				exp = new(dns.Msg)
 				exp.Rcode = f.Rcode
 			} else if f.Kind == "nx" && dirs.Kind != "nx" {
 				d2 := dirs
 				d2.Kind = "nx"
-				exp = fakeup.BuildReply(strings.ToLower(rk.name), rk.qt, dns.ClassINET, "pipe", f.Serial, d2)
+				exp = fakeup.BuildReply(strings.ToLower(rk.name), rk.qt, dns.ClassINET, rk.up, f.Serial, d2)
 			}
 			fi.life = c08Lifetime(exp, capSec)
 			for _, r := range rs {
@@ -291,7 +324,7 @@ func c08Run(c *Ctx, capSec int) {
 					if L < 0 {
 						L = 0
 					}
-					exp := fakeup.BuildReply(strings.ToLower(rk.name), rk.qt, dns.ClassINET, "pipe", r.Serial, dirs)
+					exp := fakeup.BuildReply(strings.ToLower(rk.name), rk.qt, dns.ClassINET, rk.up, r.Serial, dirs)
 					if e := c08CheckAgeing(exp, r.Msg, uint32(L)); e != "" {
 						c.Violation("ttl-too-large:"+rk.Kind, fmt.Sprintf("[%s] %s: at least %d whole seconds after the fetch: %s", cfgName, rk.name, L, e), cs(r))
 						continue
